@@ -1,15 +1,21 @@
 #!/bin/bash
 # Runs every seeded change against its property's quick check (scratch worktree, never /repo) and
 # prints one line per mutant: CAUGHT (exit 1 with a VIOLATION line) or MISSED.
-# SWEEP_JOBS mutants run at a time (default 4); the lines come out in completion order.
+# Two passes: first the plain build only (fast); what that misses is run again in all the build
+# modes of the property (race, asan, purego, solo). SWEEP_JOBS mutants run at a time (default 4);
+# the lines come out in completion order. Optional arguments: names of seeded directories.
 cd /verif
 one() {
-  d=$1; tier=$2
+  d=$1
   n=$(basename $d); p=${n%-*}
-  out=$(scripts/mutant_scratch.sh $d/patch.diff $p $tier 2>&1)
+  out=$(VERIF_MODES=plain scripts/mutant_scratch.sh $d/patch.diff $p quick 2>&1)
   rc=$(echo "$out" | grep -a -o 'mutant-result.*exit=[0-9]*' | grep -o '[0-9]*$')
   nv=$(echo "$out" | grep -a -c '^VIOLATION')
-  if [ "$rc" = "1" ] && [ "$nv" -gt 0 ]; then echo "CAUGHT $n ($nv violation keys)"; else echo "MISSED $n rc=$rc"; fi
+  if [ "$rc" = "1" ] && [ "$nv" -gt 0 ]; then echo "CAUGHT $n (plain build, $nv violation keys)"; return; fi
+  out=$(scripts/mutant_scratch.sh $d/patch.diff $p quick 2>&1)
+  rc=$(echo "$out" | grep -a -o 'mutant-result.*exit=[0-9]*' | grep -o '[0-9]*$')
+  nv=$(echo "$out" | grep -a -c '^VIOLATION')
+  if [ "$rc" = "1" ] && [ "$nv" -gt 0 ]; then echo "CAUGHT $n (all build modes, $nv violation keys)"; else echo "MISSED $n rc=$rc"; fi
 }
 export -f one
-ls -d seeded/*/ | xargs -P ${SWEEP_JOBS:-4} -I{} bash -c "one {} ${1:-quick}"
+if [ $# -gt 0 ]; then printf 'seeded/%s/\n' "$@"; else ls -d seeded/*/; fi | xargs -P ${SWEEP_JOBS:-4} -I{} bash -c "one {}"
